@@ -1510,7 +1510,7 @@ def extract_all(repo):
 
 def generate(repo, outdir):
     cfg_src, (arows, decls, wcalls, anotes, cross), (lrows, calls, entries, prot, lnotes, unknown), cond_notes = extract_all(repo)
-    hdr = '/- GENERATED by tools/gen_conc.py from %s -- do not edit; regenerated on every check -/' % repo
+    hdr = '/- GENERATED by tools/gen_conc.py from the source tree of chjj/lcdb -- do not edit; regenerated on every check -/'
     s = [hdr, 'import LcdbModel.Spec.ConcTypes', 'namespace Lcdb.Generated', 'open Lcdb.Conc', '']
     s += ['/-- T3: one row per atomic operation (file, function, object expression, op, order, line) -/']
     s += _list('atomics', 'AtomicRow', ['⟨%s, %s, %s, .%s, .%s, %d⟩' % (lstr(r[0]), lstr(r[1]), lstr(r[2]), r[3], r[4], r[5]) for r in arows])
